@@ -103,6 +103,8 @@ pub struct Profile {
     pub unit_enum_bias: u32,
     /// keep empty lines inside block-style docs (a listed finding of the same-file merge)
     pub blank_block_lines: bool,
+    /// instantiate bare parameters of `optional_fields` structs with Option types (known finding)
+    pub known_optional_fields_generic: bool,
 }
 
 impl Profile {
@@ -140,6 +142,7 @@ impl Profile {
             external_only: false,
             unit_enum_bias: 0,
             blank_block_lines: false,
+            known_optional_fields_generic: false,
         }
     }
 }
@@ -990,6 +993,19 @@ pub fn gen_module(words: &[u32], profile: &Profile, name: &str) -> Module {
                         args.push(TyExpr::User(*t.pick(&user_cands), vec![]));
                     } else {
                         args.push(simple_args[(t.choose(simple_args.len()) + k) % simple_args.len()].clone());
+                    }
+                }
+                // known finding (optional-fields-on-bare-parameter-instantiated-with-option):
+                // `optional_fields` looks at the concrete argument, so `G<Option<_>>` gets a `?`
+                // that the generic declaration does not have
+                if td.attrs.optional_fields.is_some() && !profile.known_optional_fields_generic {
+                    for (k, p) in td.params.iter().enumerate() {
+                        let bare = td.all_fields().iter().any(|f| matches!(&f.ty, TyExpr::Param(n) if *n == p.name));
+                        if bare {
+                            if let TyExpr::Option(inner) = &args[k] {
+                                args[k] = (**inner).clone();
+                            }
+                        }
                     }
                 }
                 let inst = TyExpr::User(i, args);
